@@ -31,15 +31,23 @@ U = 256.0            # ticks per second
 RES = [4, 64, 256, 0]
 
 RULE = ('kind=trace: seeded random op sequences (<= 40 ops) over Schedule (deadline in the past / equal to now / on and off '
-        'the resolution grid / equal to or rounding to an existing deadline / earlier than the current head / far), cancel '
-        '(head, pending, already fired or dropped, twice, not yet scheduled = skipped), clock advances (1 tick, to / just '
-        'before / just after the next deadline), single worker segments resumed by the event or by the time-out (both when '
-        'both are possible), single action runs, actions that call Schedule/cancel themselves, settle; kind=eager: the same '
-        'with the worker and actions run to quiescence after every op; kind=exh: every sequence of length <= 5 (quick 4) over '
-        '8 ops at resolution 4 (duplicates of an executed label sequence are not re-sent to the model); kind=real: random op '
-        'sequences on the REAL gevent hub/Event/spawn with only time virtual, checked by the monitor alone; kind=scen: hand-written scenarios (new earliest deadline during sleep(0), burst during '
-        'sleep(0), set()/time-out coincidence in both orders, cancel of head while waiting, same-tick ties in both '
-        'registration orders); resolutions 1/64, 1/4, 1 s and 0.  Ops that are not enabled are skipped. non-trivial = at '
+        'the resolution grid / equal to or rounding to an existing deadline / earlier than the current head / far; passed as '
+        'float or int), cancel (head, pending, exactly at the rounded deadline before and after the worker took the entry, '
+        'already fired or dropped, twice, not yet scheduled = skipped), Schedule(None) (rejected), clock advances (1 tick, to / '
+        'just before / just after the next deadline), single worker segments resumed by the event or by the time-out (both '
+        'when both are possible), single action runs, settle; actions call back into the queue from inside their run '
+        '(Schedule nested up to depth 3, cancel others, cancel themselves), raise Exception / a BaseException (gevent.Timeout '
+        'subclass) after running, are the very same callable object as an earlier instance (aliasing) or distinct callables '
+        'that are == and hash alike; 40% of the cases create a SECOND TimerQueue in the same process with its own history '
+        '(monitored too); kind=eager: the same with the worker and actions run to quiescence after every op; kind=long: 150 '
+        'ops on one long-lived queue; kind=exh: every sequence of length <= 5 (quick 4) over 8 ops at resolution 4 '
+        '(duplicates of an executed label sequence are not re-sent to the model); kind=real: random op sequences on the REAL '
+        'gevent hub/Event/spawn with only time virtual (half of them with a second queue on the same hub), checked by the '
+        'monitor alone; kind=scen: hand-written scenarios (new earliest deadline during sleep(0), burst during sleep(0), '
+        'set()/time-out coincidence in both orders, cancel of head while waiting, cancel exactly at the deadline before / '
+        'after the pop, raising actions, same callable thrice, equal callables, self-cancel, idle/busy cycles, same-tick ties '
+        'in both registration orders); resolutions 1/64, 1/4, 1 s, 0 and None, occasionally 1/256 s and 256 s; clock starting at '
+        '0, small values, just below 2^31 s and just above 2^32 s.  Ops that are not enabled are skipped. non-trivial = at '
         'least one worker segment and one Schedule executed; distinct by canonical JSON of (case, observation)')
 TRUSTED = ['harness/c10_vclock.py: deterministic stand-in for gevent Event / sleep / spawn (set wakes the waiter, wait(timeout) '
            'returns True iff woken by set, sleep(0) yields, spawned greenlets start in FIFO order)',
@@ -47,15 +55,19 @@ TRUSTED = ['harness/c10_vclock.py: deterministic stand-in for gevent Event / sle
 ASSUMPTIONS = ['gevent Event semantics as provided by harness/c10_vclock.py (DESIGN.md section 5, C10 assumptions)',
                'times are multiples of 1/256 s and resolutions are dyadic, so float arithmetic on times is exact (DESIGN 4.2); '
                'for the default resolution 0.01 ceil(d/0.01)*0.01 can be below d by one ulp, which is outside the model',
-               "the queue's time_source is the clock on which Event.wait time-outs elapse"]
+               "the queue's time_source is the clock on which Event.wait time-outs elapse and never goes backwards; it is constant "
+               "within one atomic worker segment (DESIGN 4.1)",
+               'cancel() is guaranteed effective only before the worker takes the entry off the queue (C10_cancel_before_take); a '
+               'cancel arriving at or after the rounded deadline may find the action already handed to its greenlet, which then '
+               'still runs - allowed by the property, pinned by the lock-step replay, not flagged by the monitor']
 
 MANIFEST = {
-    'text': ('Theorems C10_once, C10_never_early, C10_cancel, C10_cancel_frame, C10_worker_safe, C10_no_lost_wakeup, C10_order, '
+    'text': ('Theorems C10_once, C10_never_early, C10_cancel, C10_cancel_before_take, C10_cancel_frame, C10_worker_safe, C10_no_lost_wakeup, C10_order, '
              'C10_terminates and the summary C10_fire_spec hold for every resolution r >= 0 and every sequence of Schedule / '
              'cancel / clock-advance / worker-segment / action-run labels from the initial state of the Gallina small-step '
              'transcription of TimerQueue (one label = one atomic segment between gevent yield points); the transcription is '
              'replayed label by label against the real TimerQueue under a virtual clock and a deterministic scheduler on '
-             '~2.1k (quick) / ~27k (thorough) traces per run, comparing queue snapshot, event flag, worker position, '
+             '~2.2k (quick) / ~27k (thorough) traces per run, comparing queue snapshot, event flag, worker position, '
              'resumability, spawned FIFO and run log; 250 / 3000 further runs on the real gevent hub are checked by the '
              'independent monitor (once, never early, cancelled never runs, order, nothing due left at quiescence).'),
     'note': ('Trusted: Coq kernel; harness/c10_vclock.py as a model of gevent Event/sleep/spawn; sampling of interleavings by the '
@@ -104,13 +116,21 @@ def _ceil(d, r):
   return d if r == 0 else -((-d) // r) * r
 
 
-def _gen_body(rng, now, rr, nsched):
+def _gen_body(rng, now, rr, nsched, depth=0):
+  """What an action does when it runs: it calls back into the queue (Schedule again, also re-entrantly nested,
+  cancel others, cancel ITSELF)."""
   body = []
   for _ in range(rng.choice([1, 1, 2])):
-    if rng.random() < 0.7:
-      body.append({'op': 'sched', 'd': now + rng.choice([-rr, 0, 1, rr, 2 * rr, rng.randrange(0, 4 * rr)])})
-    else:
+    x = rng.random()
+    if x < 0.6:
+      op = {'op': 'sched', 'd': now + rng.choice([-rr, 0, 1, rr, 2 * rr, rng.randrange(0, 4 * rr)])}
+      if depth < 2 and rng.random() < 0.3:
+        op['body'] = _gen_body(rng, max(now, op['d']), rr, nsched, depth + 1)
+      body.append(op)
+    elif x < 0.8:
       body.append({'op': 'cancel', 'k': rng.randrange(1, nsched + 3)})
+    else:
+      body.append({'op': 'cancel', 'k': 'self'})
   return body
 
 
@@ -144,11 +164,22 @@ def gen_trace(rng, r, n, t0=0):
       op = {'op': 'sched', 'd': d}
       if rng.random() < 0.12:
         op['body'] = _gen_body(rng, max(now, d), rr, nsched)
+      y = rng.random()
+      if y < 0.08 and nsched:
+        op['alias'] = rng.randrange(1, nsched + 1)       # the very same callable object as an earlier instance
+      elif y < 0.16:
+        op['eq'] = True                                  # a distinct callable that is == and hashes like the others
+      if rng.random() < 0.08:
+        op['raise'] = rng.choice(['exc', 'base'])        # the action raises (Exception / BaseException) after running
+      if d % 256 == 0 and rng.random() < 0.5:
+        op['int'] = True                                 # deadline passed as an int
       ops.append(op)
       dls.append(d)
       nsched += 1
-    elif x < 0.42:
+    elif x < 0.41:
       ops.append({'op': 'cancel', 'k': rng.randrange(1, nsched + 2)})
+    elif x < 0.42:
+      ops.append({'op': 'sched_none', 'd': now})
     elif x < 0.62:
       fut = [_ceil(x_, r) for x_ in dls if _ceil(x_, r) > now]
       nxt = (min(fut) - now) if fut else rr
@@ -223,10 +254,32 @@ def scenarios():
         'reschedule-from-action': [S(g, body=[S(2 * g, body=[S(3 * g)]), Cn(3)]), S(4 * g), T(g), ST, T(g), ST, T(g), ST, T(g), ST],
         # everything cancelled while the worker is in sleep(0): queue must not be popped empty under it
         'all-cancelled-during-sleep0': [S(g), W('t'), W('e'), Cn(1), W('t'), S(g), Cn(2), ST, T(g), ST],
+        # cancel arriving exactly AT the rounded deadline: before the worker has popped the entry (never runs) ...
+        'cancel-at-deadline-before-pop': [S(2 * g), S(2 * g), W('t'), W('e'), W('t'), T(2 * g), Cn(1), W('t'), R, ST],
+        'cancel-at-deadline-in-sleep0': [T(g), S(g), S(g), W('t'), Cn(2), W('t'), R, ST],
+        # ... and after the worker handed it to its own greenlet (still runs), then after it ran
+        'cancel-at-deadline-after-pop': [S(2 * g), S(2 * g), W('t'), W('e'), W('t'), T(2 * g), W('t'), Cn(1), Cn(2), R, R, Cn(1), ST],
+        # actions that raise (Exception and BaseException) between others that are due at the same time
+        'raising-actions': [S(2 * g, **{'raise': 'exc'}), S(2 * g), S(2 * g, **{'raise': 'base'}), S(2 * g), S(g, **{'raise': 'exc'}),
+                            T(2 * g), ST, S(0), ST],
+        # the very same callable object scheduled three times (one of the instances cancelled)
+        'same-callable-thrice': [S(3 * g), S(2 * g, alias=1), S(3 * g, alias=1), S(4 * g, alias=1), Cn(3), T(2 * g), ST, T(g), ST, T(g), ST],
+        # equal-but-not-identical callables, ties, one cancelled
+        'equal-callables': [S(2 * g, eq=True), S(2 * g, eq=True), S(g, eq=True), Cn(2), T(g), ST, T(g), ST],
+        # an action that cancels itself while running and re-schedules; nested re-entrancy
+        'self-cancel-reschedule': [S(g, body=[Cn('self'), S(2 * g, body=[Cn('self'), S(2 * g, body=[Cn(1)])])]), T(g), ST, T(g), ST, T(g), ST],
+        # one long-lived queue going idle and busy again many times; int deadlines; None action rejected
+        'idle-busy-cycles': [x for i in range(1, 7) for x in (S(256 * i, int=True), {'op': 'sched_none', 'd': 0}, S(256 * i + 1),
+                                                             T(128), ST, Cn(2 * i), T(128), ST)],
     }
     for name, ops in sc.items():
       out.append({'kind': 'scen', 'name': name, 'r': r, 'ops': ops})
       out.append({'kind': 'scen', 'name': name + '/eager', 'r': r, 'eager': 'e', 'ops': ops})
+      if r == 0:
+        out.append({'kind': 'scen', 'name': name + '/resolution-None', 'r': 0, 'res_none': True, 'ops': ops})
+      if r == 4:   # the same history with a second queue in the process replaying it half a step behind
+        out.append({'kind': 'scen', 'name': name + '/two-queues', 'r': r, 'ops': ops,
+                    'decoy': [o for o in ops if o['op'] in ('sched', 'cancel', 'tick')]})
   return out
 
 
@@ -236,18 +289,35 @@ def gen_cases(tier, seed):
   n = 900 if quick else 20000
   for i in range(n):
     rng = C.case_rng(seed, PID, i)
-    r = RES[i % 4] if i % 7 else rng.choice(RES)
-    t0 = rng.choice([0, 0, r or 8, 1000, 262144 + 3])
+    # resolutions: 1/64, 1/4, 1 s, none; sometimes the smallest (1 tick) and a large one (256 s)
+    r = RES[i % 4] if i % 7 else rng.choice(RES + [1, 65536])
+    # start of the clock: 0, small, and just below 2^31 s / just above 2^32 s (still exact in a double)
+    t0 = rng.choice([0, 0, r or 8, 1000, 262144 + 3, 2 ** 39 - 3, 2 ** 40 + 5])
     k = rng.random()
     if k < 0.75:
-      out.append({'kind': 'trace', 'r': r, 't0': t0, 'ops': gen_trace(rng, r, rng.choice([8, 16, 25, 40]), t0)})
+      c = {'kind': 'trace', 'r': r, 't0': t0, 'ops': gen_trace(rng, r, rng.choice([8, 16, 25, 40]), t0)}
     else:
-      out.append({'kind': 'eager', 'r': r, 't0': t0, 'eager': rng.choice(['e', 't']),
-                  'ops': gen_trace(rng, r, rng.choice([8, 16, 25]), t0)})
+      c = {'kind': 'eager', 'r': r, 't0': t0, 'eager': rng.choice(['e', 't']),
+           'ops': gen_trace(rng, r, rng.choice([8, 16, 25]), t0)}
+    if r == 0 and rng.random() < 0.5:
+      c['res_none'] = True                       # TimerQueue(resolution=None)
+    if rng.random() < 0.4:                       # a second TimerQueue instance in the same process with its own history
+      c['decoy'] = [o for o in gen_trace(rng, r, rng.choice([8, 16]), 0) if o['op'] in ('sched', 'cancel', 'tick', 'sched_none')]
+    out.append(c)
+  for i in range(12 if quick else 150):          # long-lived queue: many operations on one instance
+    rng = C.case_rng(seed + 32452843, PID, i)
+    r = RES[i % 4]
+    c = {'kind': 'long', 'r': r, 't0': 0, 'ops': gen_trace(rng, r, 150, 0)}
+    if i % 2:
+      c['eager'] = rng.choice(['e', 't'])
+    out.append(c)
   for i in range(250 if quick else 3000):
     rng = C.case_rng(seed + 15485863, PID, i)
     r = RES[i % 4]
-    out.append({'kind': 'real', 'r': r, 't0': rng.choice([0, 1000]), 'ops': gen_trace(rng, r, rng.choice([10, 20, 30]), 0)})
+    c = {'kind': 'real', 'r': r, 't0': rng.choice([0, 1000]), 'ops': gen_trace(rng, r, rng.choice([10, 20, 30]), 0)}
+    if i % 2:
+      c['decoy'] = [o for o in gen_trace(rng, r, len(c['ops']), 0) if o['op'] in ('sched', 'cancel', 'sched_none')]
+    out.append(c)
   out.extend(_exh(4 if quick else 5))
   return out
 
@@ -278,145 +348,188 @@ def _ticks(x, flags):
 PC = {'top': 0, 'idle': 1, 'sleep0': 2, 'timed': 3, 'sleepn': 5}
 
 
-def run_real(case):
-  """End-to-end run on the real gevent hub (virtual time only); observed by the monitor alone."""
-  tqm = _S['tqm']
-  r = case['r']
-  w = V.RealWorld(0.0).activate()
-  flags = {}
-  events = []
-  cancels = {}
-  st = {'nsched': 0}
-
-  def tk(x):
-    return _ticks(x, flags)
-
-  w.on_spawn = lambda fn: events.append(['spawn', getattr(fn, 'k', -1), tk(w.now)])
-  tq = tqm.TimerQueue(time_source=w.time, resolution=r / U)
-
-  def make_action(k, body):
-    def act():
-      events.append(['run', k, tk(w.now)])
-      for op in body:
-        call(op)
-    act.k = k
-    return act
-
-  def call(op):
-    if op['op'] == 'sched':
-      k = st['nsched'] + 1
-      st['nsched'] = k
-      events.append(['sched', k, op['d'], tk(w.now)])
-      cancels[k] = tq.Schedule(op['d'] / U, make_action(k, op.get('body') or []))
-    elif op['op'] == 'cancel' and op['k'] in cancels:
-      events.append(['cancel', op['k'], tk(w.now)])
-      cancels[op['k']]()
-
-  def quiet():
-    if tq._worker.dead and not flags.get('worker_exc'):
-      flags['worker_exc'] = type(tq._worker.exception).__name__
-      events.append(['worker-died', flags['worker_exc'], tk(w.now)])
-    if w.livelock:
-      if not flags.get('livelock'):
-        flags['livelock'] = True
-        events.append(['livelock', tk(w.now)])
-      return
-    events.append(['quiet', tk(w.now)])
-  try:
-    if case.get('t0'):
-      w.advance_to(case['t0'] / U)
-      events.append(['tick', tk(w.now)])
-    for op in case['ops']:
-      t = op['op']
-      if w.livelock:
-        break
-      if t in ('sched', 'cancel'):
-        call(op)
-      elif t == 'tick':
-        # the clock moves while greenlets are parked; time-outs that elapse on the way fire at their own time
-        w.advance_to((tk(w.now) + op['dt']) / U, on_time=lambda: events.append(['tick', tk(w.now)]))
-        quiet()
-      elif t in ('worker', 'run'):
-        w.yield_once()
-      elif t == 'settle':
-        w.settle()
-        quiet()
-    w.settle()
-    quiet()
-  finally:
-    w.close()
-  return {'steps': [], 'events': events, 'flags': flags, 'nsched': st['nsched']}
+class _Boom(Exception):
+  expected = True
 
 
-def run_impl(case):
-  setup()
-  if case['kind'] == 'real':
-    return run_real(case)
-  tqm = _S['tqm']
-  r = case['r']
-  w = V.World(0.0).activate()
-  flags = {}
-  steps = []          # [label, obs]
-  events = []         # log for the monitor
-  cancels = {}
-  st = {'nsched': 0, 'tq': None}
-  runs = []
+def _boom_base():
+  import gevent
 
-  def tk(x):
-    return _ticks(x, flags)
+  class _BoomBase(gevent.Timeout):          # a BaseException that is not an Exception, as raised by gevent.Timeout
+    expected = True
+  return _BoomBase()
 
-  def obs(full_q, full_ran):
-    tq = st['tq']
+
+class _Act(object):
+  """A schedulable callable.  The same object may be scheduled several times (aliasing): `insts` are the
+  instances (Schedule calls) that share it; `assigned` is the FIFO of instances for its greenlets that were
+  spawned and have not run yet."""
+
+  def __init__(self, book):
+    self.book = book
+    self.insts = []
+    self.assigned = []
+
+  def __call__(self):
+    self.book.run(self)
+
+
+class _EqAct(_Act):
+  """Equal-but-not-identical callables: every _EqAct equals every other and hashes alike."""
+
+  def __eq__(self, other):
+    return isinstance(other, _EqAct)
+
+  def __ne__(self, other):
+    return not isinstance(other, _EqAct)
+
+  def __hash__(self):
+    return 7
+
+
+class _Book(object):
+  """The harness's own record of one TimerQueue under test: calls made, which instance each spawned greenlet
+  stands for, the event log handed to the monitor."""
+
+  def __init__(self, tqm, case, clock, flags, r):
+    self.flags = flags
+    self.r = r
+    self.clock = clock                 # () -> float seconds
+    self.events = []
+    self.cancels = {}
+    self.spec = {}                     # k -> op
+    self.acts = {}                     # k -> callable
+    self.nsched = 0
+    self.cancelled = set()
+    self.taken = set()
+    self.runs = []
+    self.after_run = None              # hook(k) used by the lock-step recorder
+    self.after_call = None             # hook(label)
+    res = None if (r == 0 and case.get('res_none')) else r / U
+    self.tq = tqm.TimerQueue(time_source=clock, resolution=res)
+
+  def now(self):
+    return _ticks(self.clock(), self.flags)
+
+  def cr(self, d):
+    return d if self.r == 0 else -((-d) // self.r) * self.r
+
+  def on_spawn(self, fn):
+    """Which instance does this new greenlet stand for?  The only one when the callable was scheduled once; for a
+    shared callable the pending, un-cancelled instance that is first in (rounded deadline, scheduling order)."""
+    insts = getattr(fn, 'insts', None)
+    k = -1
+    if insts:
+      cand = [i for i in insts if i not in self.taken and i not in self.cancelled]
+      if cand:
+        k = min(cand, key=lambda i: (self.cr(self.spec[i]['d']), i))
+      elif len(insts) == 1:
+        k = insts[0]
+      fn.assigned.append(k)
+    self.taken.add(k)
+    self.events.append(['spawn', k, self.now()])
+    return k
+
+  def run(self, act):
+    k = act.assigned.pop(0) if act.assigned else -1
+    t = self.now()
+    self.runs.append([k, t])
+    self.events.append(['run', k, t])
+    if self.after_run:
+      self.after_run(k)
+    op = self.spec.get(k) or {}
+    for b in op.get('body') or []:
+      self.call(b, k)
+    if op.get('raise') == 'exc':
+      raise _Boom()
+    if op.get('raise') == 'base':
+      raise _boom_base()
+
+  def call(self, op, me=None):
+    t = op['op']
+    if t == 'sched':
+      k = self.nsched + 1
+      self.nsched = k
+      j = op.get('alias')
+      if j in self.acts and not isinstance(self.acts[j], _EqAct):
+        act = self.acts[j]                      # the very same callable object again
+      elif op.get('eq'):
+        act = _EqAct(self)
+      else:
+        act = _Act(self)
+      act.insts.append(k)
+      self.acts[k] = act
+      self.spec[k] = op
+      d = op['d']
+      dsec = (d // 256) if (op.get('int') and d % 256 == 0) else d / U
+      self.events.append(['sched', k, d, self.now()])
+      self.cancels[k] = self.tq.Schedule(dsec, act)
+      if self.after_call:
+        self.after_call(['S', d])
+    elif t == 'cancel':
+      k = me if op['k'] == 'self' else op['k']
+      if k in self.cancels:
+        self.events.append(['cancel', k, self.now()])
+        self.cancelled.add(k)
+        self.cancels[k]()
+        if self.after_call:
+          self.after_call(['C', k])
+    elif t == 'sched_none':
+      try:
+        self.tq.Schedule(op.get('d', 0) / U, None)
+        self.flags['none_accepted'] = True
+      except Exception:
+        self.flags['none_rejected'] = self.flags.get('none_rejected', 0) + 1
+
+
+class _Shim(object):
+  """Drives one TimerQueue on the deterministic scheduler (harness/c10_vclock.World)."""
+
+  def __init__(self, tqm, case, record):
+    self.flags = {}
+    self.w = V.World(0.0).activate()
+    self.steps = []
+    self.rec = record
+    self.book = _Book(tqm, case, self.w.time, self.flags, case['r'])
+    self.w.on_spawn = self.book.on_spawn
+    self.book.after_run = lambda k: self.record(['R'])
+    self.book.after_call = self.record
+
+  def tk(self, x):
+    return _ticks(x, self.flags)
+
+  def obs(self, full_q, full_ran):
+    w, tq = self.w, self.book.tq
     if w.worker_dead():
       pc = [4, 0]
     else:
       kind, exp, _e = w.parked
-      pc = [PC[kind], tk(exp) if exp is not None else 0]
+      pc = [PC[kind], self.tk(exp) if exp is not None else 0]
     en = w.worker_enabled()
-    o = {'pc': pc, 'ev': bool(tq._event.is_set()), 'en': [bool(en[0]), bool(en[1])], 'qlen': len(tq._queue),
-         'sp': [getattr(g.fn, 'k', -1) for g in w.fifo], 'ranlen': len(runs)}
+    # compact (memory): [pc code, pc expiry, ev, resumable by event, by time-out, qlen, spawned, ranlen, q | None, ran | None]
+    o = [pc[0], pc[1], bool(tq._event.is_set()), bool(en[0]), bool(en[1]), len(tq._queue),
+         [g.tag if g.tag is not None else -1 for g in w.fifo], len(self.book.runs), None, None]
     if full_q:
-      o['q'] = sorted([tk(e[0]), int(e[1]), bool(e[2])] for e in tq._queue)
+      o[8] = sorted([self.tk(e[0]), int(e[1]), bool(e[2])] for e in tq._queue)
     if full_ran:
-      o['ran'] = [list(x) for x in runs]
+      o[9] = [list(x) for x in self.book.runs]
     return o
 
-  def record(label):
-    steps.append([label, obs(label[0] == 'W', label[0] == 'R')])
+  def record(self, label):
+    w = self.w
+    if self.rec:
+      self.steps.append([label, self.obs(label[0] == 'W', label[0] == 'R')])
     en = w.worker_enabled()
     if not en[0] and not en[1] and not w.fifo:
-      events.append(['quiet', tk(w.now)])
+      self.book.events.append(['quiet', self.tk(w.now)])
 
-  def on_spawn(fn):
-    events.append(['spawn', getattr(fn, 'k', -1), tk(w.now)])
-  w.on_spawn = on_spawn
+  def tick_to(self, t):
+    self.w.now = t / U
+    self.book.events.append(['tick', self.tk(self.w.now)])
+    self.record(['T', self.tk(self.w.now)])
 
-  def make_action(k, body):
-    def act():
-      runs.append([k, tk(w.now)])
-      events.append(['run', k, tk(w.now)])
-      record(['R'])
-      for op in body:
-        call(op)
-    act.k = k
-    return act
-
-  def call(op):
-    t = op['op']
-    if t == 'sched':
-      k = st['nsched'] + 1
-      st['nsched'] = k
-      events.append(['sched', k, op['d'], tk(w.now)])
-      cancels[k] = st['tq'].Schedule(op['d'] / U, make_action(k, op.get('body') or []))
-      record(['S', op['d']])
-    elif t == 'cancel':
-      k = op['k']
-      if k in cancels:
-        events.append(['cancel', k, tk(w.now)])
-        cancels[k]()
-        record(['C', k])
-
-  def worker(by, pref):
+  def worker(self, by, pref):
+    w = self.w
     en = w.worker_enabled()
     if by == 'e':
       ok, be = en[0], True
@@ -428,21 +541,22 @@ def run_impl(case):
     if not ok:
       return False
     w.resume_worker(be)
-    if w.worker_exc and not flags.get('worker_exc'):
-      flags['worker_exc'] = w.worker_exc
-      events.append(['worker-died', w.worker_exc, tk(w.now)])
-    record(['W', be])
+    if w.worker_exc and not self.flags.get('worker_exc'):
+      self.flags['worker_exc'] = w.worker_exc
+      self.book.events.append(['worker-died', w.worker_exc, self.tk(w.now)])
+    self.record(['W', be])
     return True
 
-  def settle(pref):
+  def settle(self, pref):
+    w = self.w
     n = 0
     while True:
-      bound = 6 * (len(st['tq']._queue) + len(w.fifo) + st['nsched']) + 12
+      bound = 6 * (len(self.book.tq._queue) + len(w.fifo) + self.book.nsched) + 12
       progressed = False
       if w.fifo and pref == 't':
         w.run_next()
         progressed = True
-      elif worker('a', pref):
+      elif self.worker('a', pref):
         progressed = True
       elif w.fifo:
         w.run_next()
@@ -451,58 +565,168 @@ def run_impl(case):
         return
       n += 1
       if n > bound:
-        flags['livelock'] = True
-        events.append(['livelock', tk(w.now)])
+        self.flags['livelock'] = True
+        self.book.events.append(['livelock', self.tk(w.now)])
         return
 
-  crit0 = _S.get('critical', 0)
+  def do(self, op, eager):
+    t = op['op']
+    if t in ('sched', 'cancel', 'sched_none'):
+      self.book.call(op)
+    elif t == 'tick':
+      self.tick_to(self.tk(self.w.now) + op['dt'])
+    elif t == 'worker':
+      self.worker(op.get('by', 'a'), op.get('pref', 'e'))
+    elif t == 'run':
+      if self.w.fifo:
+        self.w.run_next()
+    elif t == 'settle':
+      self.settle(op.get('pref', 'e'))
+    if eager:
+      self.settle(eager)
+
+  def close(self):
+    self.book.tq = None
+    self.w.close()
+
+
+def run_real(case):
+  """End-to-end run on the real gevent hub (virtual time only); observed by the monitor alone."""
+  tqm = _S['tqm']
+  w = V.RealWorld(0.0).activate()
+  flags = {}
+  book = _Book(tqm, case, w.time, flags, case['r'])
+  books = [book]
+  decoy = case.get('decoy')
+  if decoy is not None:
+    books.append(_Book(tqm, case, w.time, {}, case['r']))      # a second queue on the same hub and clock
+
+  def on_spawn(fn):
+    b = getattr(fn, 'book', None)
+    if b is not None:
+      b.on_spawn(fn)
+    else:
+      book.events.append(['spawn', -1, book.now()])
+  w.on_spawn = on_spawn
+
+  def quiet():
+    for b in books:
+      if b.tq._worker.dead and not b.flags.get('worker_exc'):
+        b.flags['worker_exc'] = type(b.tq._worker.exception).__name__
+        b.events.append(['worker-died', b.flags['worker_exc'], b.now()])
+    if w.livelock:
+      if not flags.get('livelock'):
+        flags['livelock'] = True
+        book.events.append(['livelock', book.now()])
+      return
+    for b in books:
+      b.events.append(['quiet', b.now()])
+
+  def on_time():
+    for b in books:
+      b.events.append(['tick', b.now()])
   try:
-    st['tq'] = tqm.TimerQueue(time_source=w.time, resolution=r / U)
+    if case.get('t0'):
+      w.advance_to(case['t0'] / U)
+      on_time()
+    for i, op in enumerate(case['ops']):
+      t = op['op']
+      if w.livelock:
+        break
+      if t in ('sched', 'cancel', 'sched_none'):
+        book.call(op)
+      elif t == 'tick':
+        # the clock moves while greenlets are parked; time-outs that elapse on the way fire at their own time
+        w.advance_to((book.now() + op['dt']) / U, on_time=on_time)
+        quiet()
+      elif t in ('worker', 'run'):
+        w.yield_once()
+      elif t == 'settle':
+        w.settle()
+        quiet()
+      if decoy and i < len(decoy) and decoy[i]['op'] in ('sched', 'cancel', 'sched_none'):
+        books[1].call(decoy[i])
+    w.settle()
+    quiet()
+  finally:
+    w.close()
+  out = {'steps': [], 'events': book.events, 'flags': flags, 'nsched': book.nsched}
+  if decoy is not None:
+    out['events2'] = books[1].events
+  return out
+
+
+def run_impl(case):
+  setup()
+  if case['kind'] == 'real':
+    return run_real(case)
+  tqm = _S['tqm']
+  crit0 = _S.get('critical', 0)
+  main = _Shim(tqm, case, True)
+  decoy = case.get('decoy')
+  other = _Shim(tqm, case, False) if decoy is not None else None      # a second, independent queue in the same process
+  try:
     eager = case.get('eager')
     if case.get('t0'):
-      w.now = case['t0'] / U
-      events.append(['tick', tk(w.now)])
-      record(['T', tk(w.now)])
-    for op in case['ops']:
-      t = op['op']
-      if t in ('sched', 'cancel'):
-        call(op)
-      elif t == 'tick':
-        w.now = (tk(w.now) + op['dt']) / U
-        events.append(['tick', tk(w.now)])
-        record(['T', tk(w.now)])
-      elif t == 'worker':
-        worker(op.get('by', 'a'), op.get('pref', 'e'))
-      elif t == 'run':
-        if w.fifo:
-          w.run_next()
-      elif t == 'settle':
-        settle(op.get('pref', 'e'))
-      if eager:
-        settle(eager)
-    if steps:
-      steps[-1][1] = obs(True, True)
-    if w.action_errors:
-      flags['action_errors'] = list(w.action_errors)
+      main.tick_to(case['t0'])
+    for i, op in enumerate(case['ops']):
+      main.do(op, eager)
+      if other is not None and i < len(decoy):
+        other.do(decoy[i], 'e')
+    if other is not None:
+      for op in decoy[len(case['ops']):]:
+        other.do(op, 'e')
+    if main.steps:
+      main.steps[-1][1] = main.obs(True, True)
+    if main.w.action_errors:
+      main.flags['action_errors'] = list(main.w.action_errors)
+    if other is not None and (other.w.action_errors or other.flags):
+      main.flags['decoy_flags'] = dict(other.flags, action_errors=list(other.w.action_errors))
     if _S.get('critical', 0) != crit0:
-      flags['seq_mismatch_logged'] = _S['critical'] - crit0
+      main.flags['seq_mismatch_logged'] = _S['critical'] - crit0
+    out = {'steps': main.steps, 'events': main.book.events, 'flags': main.flags, 'nsched': main.book.nsched}
+    if other is not None:
+      out['events2'] = other.book.events
+    return out
   finally:
-    st['tq'] = None
-    w.close()
-  return {'steps': steps, 'events': events, 'flags': flags, 'nsched': st['nsched']}
+    main.close()
+    if other is not None:
+      other.close()
 
 
 # ---------------------------------------------------------------------------------------------
 # monitor: the property statement on the implementation's log (independent of the model)
+#
+# What cancel guarantees (and what it does not): an action cancelled while the clock is before its rounded
+# deadline never runs.  A cancel that arrives at or after the rounded deadline is only effective if the worker has
+# not yet taken the entry off the queue (model: C10_cancel_before_take); once the worker has handed the action to
+# its own greenlet it runs even if cancel() arrives at the same clock value - the property allows both, so
+# the monitor flags neither; the lock-step replay pins which of the two happened.
 # ---------------------------------------------------------------------------------------------
 def monitor(case, obs):
+  v = _monitor_events(case['r'], obs['events'])
+  if 'events2' in obs:
+    v += [(s, 'second queue in the same process: ' + m) for s, m in _monitor_events(case['r'], obs['events2'])]
+  if obs['flags'].get('action_errors'):
+    v.append(('action-error', 'exception inside a harness action: %s' % obs['flags']['action_errors']))
+  if obs['flags'].get('decoy_flags', {}).get('action_errors'):
+    v.append(('action-error', 'exception inside a harness action (second queue): %s' % obs['flags']['decoy_flags']))
+  # de-duplicate by signature, keep first message
+  seen = set()
+  out = []
+  for s, m in v:
+    if s not in seen:
+      seen.add(s)
+      out.append((s, m))
+  return out
+
+
+def _monitor_events(r, ev):
   v = []
-  r = case['r']
   sched = {}          # k -> (d, index in the event log)
   first_cancel = {}   # k -> (time, index)
   spawned_at = {}     # k -> index
   ran = {}            # k -> [times]
-  ev = obs['events']
 
   def cr(d):
     return d if r == 0 else -((-d) // r) * r
@@ -516,7 +740,8 @@ def monitor(case, obs):
     elif t == 'spawn':
       a = e[1]
       if a not in sched:
-        v.append(('spawned-unscheduled', 'worker spawned something that was never scheduled: %r' % (e,)))
+        v.append(('spawned-unscheduled', 'worker spawned something that was never scheduled (or a shared callable more often '
+                  'than it has pending instances): %r' % (e,)))
         continue
       if a in spawned_at:
         v.append(('ran-twice', 'action %d taken off the queue twice' % a))
@@ -537,6 +762,7 @@ def monitor(case, obs):
       a, tr = e[1], e[2]
       ran.setdefault(a, []).append(tr)
       if a not in sched:
+        v.append(('spawned-unscheduled', 'something ran that was never scheduled: %r' % (e,)))
         continue
       d = sched[a][0]
       if len(ran[a]) > 1:
@@ -560,17 +786,7 @@ def monitor(case, obs):
       v.append(('worker-died', 'the timer worker greenlet died with %s at t=%d' % (e[1], e[2])))
     elif t == 'livelock':
       v.append(('worker-livelock', 'the worker stayed runnable without any Schedule call or clock advance (t=%d)' % e[1]))
-  # run order = take order (FIFO of spawned greenlets is provided by the scheduler)
-  if obs['flags'].get('action_errors'):
-    v.append(('action-error', 'exception inside a harness action: %s' % obs['flags']['action_errors']))
-  # de-duplicate by signature, keep first message
-  seen = set()
-  out = []
-  for s, m in v:
-    if s not in seen:
-      seen.add(s)
-      out.append((s, m))
-  return out
+  return v
 
 
 # ---------------------------------------------------------------------------------------------
@@ -596,14 +812,14 @@ def _label(l):
 
 def _obs(o):
   q = 'None'
-  if 'q' in o:
-    q = '(Some [%s])' % ';'.join('(%s,%s,%s)' % (_z(a), _z(b), C.blit(c)) for a, b, c in o['q'])
+  if o[8] is not None:
+    q = '(Some [%s])' % ';'.join('(%s,%s,%s)' % (_z(a), _z(b), C.blit(c)) for a, b, c in o[8])
   ran = 'None'
-  if 'ran' in o:
-    ran = '(Some [%s])' % ';'.join('(%s,%s)' % (_z(a), _z(b)) for a, b in o['ran'])
+  if o[9] is not None:
+    ran = '(Some [%s])' % ';'.join('(%s,%s)' % (_z(a), _z(b)) for a, b in o[9])
   return 'Ob (%s,%s) %s (%s,%s) %s %s [%s] %s %s' % (
-      _z(o['pc'][0]), _z(o['pc'][1]), C.blit(o['ev']), C.blit(o['en'][0]), C.blit(o['en'][1]), _z(o['qlen']), q,
-      ';'.join(_z(x) for x in o['sp']), _z(o['ranlen']), ran)
+      _z(o[0]), _z(o[1]), C.blit(o[2]), C.blit(o[3]), C.blit(o[4]), _z(o[5]), q,
+      ';'.join(_z(x) for x in o[6]), _z(o[7]), ran)
 
 
 _SEEN_EXH = set()
@@ -642,22 +858,73 @@ def stats(cases, obs):
   for c, o in zip(cases, obs):
     if not isinstance(o, dict) or 'steps' not in o:
       continue
-    prev = {'pc': [0, 0], 'ev': False, 'qlen': 0, 'sp': [], 'q': []}
+    prev = [0, 0, False, False, True, 0, [], 0, None, None]
     for l, ob in o['steps']:
       labels[l[0]] += 1
       if l[0] == 'W':
-        popped = prev['qlen'] - ob['qlen']
-        spn = len(ob['sp']) - len(prev['sp'])
-        trans['%s/%s/ev=%d -> %s pop=%s spawn=%s' % (names[prev['pc'][0]], 'event' if l[1] else 'timeout', prev['ev'],
-                                                   names[ob['pc'][0]], min(popped, 3), min(spn, 3))] += 1
+        popped = prev[5] - ob[5]
+        spn = len(ob[6]) - len(prev[6])
+        trans['%s/%s/ev=%d -> %s pop=%s spawn=%s' % (names[prev[0]], 'event' if l[1] else 'timeout', prev[2],
+                                                   names[ob[0]], min(popped, 3), min(spn, 3))] += 1
       elif l[0] == 'S':
-        schedk['%s sets_event=%d at %s' % ('first' if prev['qlen'] == 0 else 'more', (not prev['ev']) and ob['ev'],
-                                          names[ob['pc'][0]])] += 1
+        schedk['%s sets_event=%d at %s' % ('first' if prev[5] == 0 else 'more', (not prev[2]) and ob[2], names[ob[0]])] += 1
       elif l[0] == 'C':
-        canck['at %s' % names[ob['pc'][0]]] += 1
+        canck['at %s' % names[ob[0]]] += 1
       elif l[0] == 'R':
         runs += 1
       prev = ob
   crit = sum(o['flags'].get('seq_mismatch_logged', 0) for o in obs if isinstance(o, dict) and 'flags' in o)
-  return {'seq_mismatch_critical_logged': crit, 'labels_executed': dict(labels), 'worker_segment_branches': dict(sorted(trans.items())),
+  dims = collections.Counter()
+  cwhen = collections.Counter()
+
+  def walk(ops, depth):
+    for op in ops:
+      if op['op'] == 'sched':
+        for key in ('alias', 'eq', 'int'):
+          if op.get(key):
+            dims['schedule_' + key] += 1
+        if op.get('raise'):
+          dims['action_raises_' + op['raise']] += 1
+        if op.get('body'):
+          dims['action_calls_back_depth_%d' % (depth + 1)] += 1
+          walk(op['body'], depth + 1)
+      elif op['op'] == 'cancel' and op['k'] == 'self':
+        dims['action_cancels_itself'] += 1
+      elif op['op'] == 'sched_none':
+        dims['schedule_None_action'] += 1
+  for c, o in zip(cases, obs):
+    if not isinstance(o, dict) or 'events' not in o:
+      continue
+    walk(c['ops'], 0)
+    if c.get('decoy') is not None:
+      dims['cases_with_second_queue'] += 1
+    if c.get('res_none'):
+      dims['cases_resolution_None'] += 1
+    if c.get('t0', 0) >= 2 ** 39 - 3:
+      dims['cases_clock_around_2^31_2^32_s'] += 1
+    if c['r'] in (1, 65536):
+      dims['cases_resolution_1tick_or_256s'] += 1
+    r = c['r']
+    sch, sp, rn = {}, {}, {}
+    for i, e in enumerate(o['events']):
+      if e[0] == 'sched':
+        sch[e[1]] = e[2] if r == 0 else -((-e[2]) // r) * r
+      elif e[0] == 'spawn':
+        sp.setdefault(e[1], i)
+      elif e[0] == 'run':
+        rn.setdefault(e[1], i)
+      elif e[0] == 'cancel' and e[1] in sch:
+        k, t = e[1], e[2]
+        if k in rn:
+          cwhen['after it ran'] += 1
+        elif k in sp:
+          cwhen['after the worker took it, before it ran (still runs)'] += 1
+        elif t < sch[k]:
+          cwhen['before the rounded deadline'] += 1
+        elif t == sch[k]:
+          cwhen['exactly at the rounded deadline, before the worker took it'] += 1
+        else:
+          cwhen['after the rounded deadline, before the worker took it'] += 1
+  return {'input_dimensions': dict(sorted(dims.items())), 'cancel_arrival': dict(sorted(cwhen.items())),
+          'seq_mismatch_critical_logged': crit, 'labels_executed': dict(labels), 'worker_segment_branches': dict(sorted(trans.items())),
           'schedule_kinds': dict(sorted(schedk.items())), 'cancel_kinds': dict(canck), 'actions_run': runs}
